@@ -459,7 +459,7 @@ class Interp:
             if m is not None:
                 return self.call(m, [fn] + list(args), kwargs)
             lb = fn.cls.lib_base_names()
-            if any(b in ("torch.nn.Module", "torch.nn.modules.Module", "lightning.LightningModule") for b in lb):
+            if any(b in ("torch.nn.Module", "torch.nn.modules.Module", "lightning.LightningModule") or b.startswith("torch.nn.") for b in lb):
                 m, _ = fn.cls.lookup("forward")
                 if m is not None:
                     return self.call(m, [fn] + list(args), kwargs)
